@@ -26,6 +26,12 @@ func unalias(t types.Type) types.Type {
 		// *ent.Cursor is the type we got from auto-binding.
 		return types.NewPointer(Unalias(p.Elem()))
 	}
+	if s, ok := t.(*types.Slice); ok {
+		// the same inside a list ([]*ent.Cursor): otherwise the element is referenced under the
+		// alias's name here and under the real name elsewhere, and the generated code spells the
+		// type one way or the other depending on map order
+		return types.NewSlice(Unalias(s.Elem()))
+	}
 	return types.Unalias(t)
 }
 
